@@ -348,10 +348,11 @@ type zzvRequest struct {
 	hasRange bool
 	badUnit  bool
 	specs    []zzvSpec
-	ifRange  int  // 0 absent, 1 the strong ETag, 2 another ETag, 3 the ETag as weak validator
-	inm      int  // If-None-Match: 0 absent, 1 the ETag, 2 another ETag, 3 "*", 4 the ETag as weak validator, 5 a list containing it
-	ifMatch  int  // If-Match: 0 absent, 1 the ETag, 2 another ETag, 3 the ETag as weak validator, 4 "*", 5 a list containing it
-	raw      bool // raw-block pipeline (handler_block.go / handler_codec.go) instead of the UnixFS-file pipeline
+	ifRange  int    // 0 absent, 1 the strong ETag, 2 another ETag, 3 the ETag as weak validator
+	inm      int    // If-None-Match: 0 absent, 1 the ETag, 2 another ETag, 3 "*", 4 the ETag as weak validator, 5 a list containing it
+	ifMatch  int    // If-Match: 0 absent, 1 the ETag, 2 another ETag, 3 the ETag as weak validator, 4 "*", 5 a list containing it
+	raw      bool   // raw-block pipeline (handler_block.go / handler_codec.go) instead of the UnixFS-file pipeline
+	text     string // when set: the literal Range header (HarnessC30Text); specs then hold its reference parse
 }
 
 const zzvETag = `"abc"`
@@ -359,6 +360,9 @@ const zzvETag = `"abc"`
 func (q *zzvRequest) rangeHeader() string {
 	if !q.hasRange {
 		return ""
+	}
+	if q.text != "" {
+		return q.text
 	}
 	var sb strings.Builder
 	if q.badUnit {
@@ -538,11 +542,11 @@ func zzvCheck(q *zzvRequest, size int64, w *zzvRW) {
 				zeroSuffix = true
 			}
 		}
-		if !malformed {
-			for _, s := range q.specs {
-				if _, _, ok := s.slice(size); ok {
-					anySat = true
-				}
+		// satisfiable well-formed specs (a malformed neighbour makes the whole header malformed, which a
+		// server may reject or ignore; if it serves a range nevertheless it must be one of these)
+		for _, s := range q.specs {
+			if _, _, ok := s.slice(size); ok && !s.malformed() {
+				anySat = true
 			}
 		}
 	}
@@ -593,7 +597,7 @@ func zzvCheck(q *zzvRequest, size int64, w *zzvRW) {
 			verifrt.Reach("end")
 			return
 		}
-		verifrt.Assert("C30.206-only-for-honoured-range", !rangeIgnored && !malformed && anySat)
+		verifrt.Assert("C30.206-only-for-honoured-range", !rangeIgnored && anySat)
 		verifrt.Assert("C30.206-range-inside-file", 0 <= crS && crS <= crE && crE < size && crTotal == size)
 		match := false
 		for _, s := range q.specs {
@@ -699,6 +703,103 @@ func HarnessC30MultiRaw() {
 	ns := verifrt.NondetRange("nspec", 2, verifrt.Param("NS", 2))
 	q.specs = zzvDrawSpecs(ns, verifrt.Param("FORMS", zzvNForms))
 	q.ifRange = verifrt.NondetRange("ifRange", 0, 2)
+	size := zzvSize()
+	zzvCheck(q, size, zzvServe(q, size))
+}
+
+// ---------------------------------------------------------------------------------------------------
+// Literal header text: the two parsers of the product against a reference reading of RFC 7233 byte-range-set
+// (with the optional white space both parsers accept).
+// ---------------------------------------------------------------------------------------------------
+
+func zzvTrim(b []byte) []byte {
+	for len(b) > 0 && b[0] == ' ' {
+		b = b[1:]
+	}
+	for len(b) > 0 && b[len(b)-1] == ' ' {
+		b = b[:len(b)-1]
+	}
+	return b
+}
+
+// zzvDigits: 1*DIGIT -> value
+func zzvDigits(b []byte) (int64, bool) {
+	if len(b) == 0 {
+		return 0, false
+	}
+	var v int64
+	for _, c := range b {
+		if c < '0' || c > '9' {
+			return 0, false
+		}
+		v = v*10 + int64(c-'0')
+	}
+	return v, true
+}
+
+// zzvRefParse reads the byte-range-set after "bytes=".
+func zzvRefParse(txt []byte) []zzvSpec {
+	var specs []zzvSpec
+	start := 0
+	for i := 0; i <= len(txt); i++ {
+		if i < len(txt) && txt[i] != ',' {
+			continue
+		}
+		el := zzvTrim(txt[start:i])
+		start = i + 1
+		if len(el) == 0 {
+			specs = append(specs, zzvSpec{form: zzvFormEmpty})
+			continue
+		}
+		dash := -1
+		for j, c := range el {
+			if c == '-' {
+				dash = j
+				break
+			}
+		}
+		if dash < 0 {
+			specs = append(specs, zzvSpec{form: zzvFormNoDash})
+			continue
+		}
+		left, right := zzvTrim(el[:dash]), zzvTrim(el[dash+1:])
+		if len(right) > 1 && right[0] == '-' {
+			// "A--0": strconv reads "-0" as 0, so the product takes it for "A-0" (assumption shared with the
+			// token grammar: not claimed either way)
+			if v, ok := zzvDigits(right[1:]); ok {
+				verifrt.Assume(v != 0)
+			}
+		}
+		a, aok := zzvDigits(left)
+		b, bok := zzvDigits(right)
+		switch {
+		case len(left) == 0 && bok:
+			specs = append(specs, zzvSpec{form: zzvFormSuffix, b: b})
+		case aok && len(right) == 0:
+			specs = append(specs, zzvSpec{form: zzvFormOpen, a: a})
+		case aok && bok:
+			specs = append(specs, zzvSpec{form: zzvFormFirstLast, a: a, b: b})
+		default:
+			specs = append(specs, zzvSpec{form: zzvFormDash}) // malformed
+		}
+	}
+	return specs
+}
+
+// HarnessC30Text: Range = "bytes=" + 1..N symbolic bytes over {'0','1','7','-',',',' '}, symbolic file size,
+// GET/HEAD, both pipelines.
+func HarnessC30Text() {
+	zzvReset()
+	q := &zzvRequest{hasRange: true}
+	q.raw = verifrt.NondetRange("raw", 0, 1) == 1
+	q.head = verifrt.NondetRange("head", 0, 1) == 1
+	n := verifrt.NondetRange("n", 1, verifrt.Param("N", 3))
+	txt := verifrt.NondetBytes("txt", n)
+	for i := range txt {
+		verifrt.Assume(verifrt.OneOf(txt[i], "017-, "))
+	}
+	q.text = "bytes=" + string(txt)
+	q.specs = zzvRefParse(txt)
 	size := zzvSize()
 	zzvCheck(q, size, zzvServe(q, size))
 }
